@@ -165,19 +165,31 @@ def grep_forbidden(pid=None):
 
 def _run_shard(args):
     path, timeout = args
-    p = subprocess.run(["timeout", str(timeout), "coqc", "-Q", COQ, "IPV8V", "-w", "-notation-overridden,-deprecated", path],
+    # big list literals need a deep stack in coqc's parser/compiler
+    p = subprocess.run(["bash", "-c", "ulimit -s unlimited 2>/dev/null || ulimit -s 1000000 2>/dev/null; "
+                        "exec timeout %d coqc -Q %s IPV8V -w -notation-overridden,-deprecated %s" % (timeout, COQ, path)],
                        stdout=subprocess.PIPE, stderr=subprocess.STDOUT, text=True)
     return p.returncode, p.stdout
 
 
 def eval_mismatches(imports: str, run: str, eqb: str, cases, scratch: str, ctype: str | None = None,
-                    shard=300, jobs=12, timeout=600, preamble: str = ""):
+                    shard=300, jobs=12, timeout=600, preamble: str = "", max_bytes=300000):
     """cases: list of (coq_case_term, coq_expected_term). Evaluates inside Coq
     `mismatches run eqb cases` per shard. Returns (mismatch_indices, errors)."""
     os.makedirs(scratch, exist_ok=True)
     shards = []
-    for si, start in enumerate(range(0, len(cases), shard)):
-        part = cases[start:start + shard]
+    # shards of at most `shard` cases and ~max_bytes of literal text
+    bounds, start, size = [], 0, 0
+    for i, (c, e) in enumerate(cases):
+        sz = len(c) + len(e)
+        if i > start and (i - start >= shard or size + sz > max_bytes):
+            bounds.append((start, i))
+            start, size = i, 0
+        size += sz
+    if cases:
+        bounds.append((start, len(cases)))
+    for si, (start, end) in enumerate(bounds):
+        part = cases[start:end]
         name = "Cases_%d" % si
         path = os.path.join(scratch, name + ".v")
         with open(path, "w") as f:
